@@ -226,6 +226,22 @@ pub fn h_c13_shallow() {
         v => v,
     };
     let b = build(&mut xot, &nm, 0, vbb, [&b0, &b1, "other", "k"]);
+    // attribute sets of different sizes, including an element without any attribute on either side
+    match sym::choose("strip", 4) {
+        1 => {
+            xot.remove_attribute(a, nm.x);
+            xot.remove_attribute(a, nm.y);
+        }
+        2 => {
+            xot.remove_attribute(a, nm.y);
+        }
+        3 => {
+            xot.remove_attribute(b, nm.x);
+            xot.remove_attribute(b, nm.x_ns);
+            xot.remove_attribute(b, nm.y);
+        }
+        _ => {}
+    }
     let (na, attrs_a) = match canon(&xot, a) {
         Canon::El { name, attrs, .. } => (name, attrs),
         _ => unreachable!(),
@@ -234,14 +250,16 @@ pub fn h_c13_shallow() {
         Canon::El { name, attrs, .. } => (name, attrs),
         _ => unreachable!(),
     };
-    let ig = sym::choose("ignore", 6);
+    let ig = sym::choose("ignore", 8);
     let ignore: Vec<NameId> = match ig {
         0 => vec![],
         1 => vec![nm.x],
         2 => vec![nm.t],
         3 => vec![nm.x, nm.t],
         4 => vec![nm.y, nm.y],
-        _ => vec![nm.b],
+        5 => vec![nm.b],
+        6 => vec![nm.x, nm.y],
+        _ => vec![nm.y, nm.t, nm.x, nm.x_ns],
     };
     let ignored: Vec<(String, String)> = ignore.iter().map(|n| name_pair(&xot, *n)).collect();
     let fa: Vec<_> = attrs_a.iter().filter(|(k, _)| !ignored.contains(k)).cloned().collect();
